@@ -80,7 +80,7 @@ template <class G, class L> std::string compareLoaded(G &loaded, const GraphSpec
         x.directed = s.directed;
         x.n = s.n;
         for (auto &e2 : s.edges) x.e[e2] = Expect::Cell();
-        e = checkStructure(loaded, x, C.oc);
+        e = checkEdgesOnly(loaded, x, C.oc);
     }
     if (!e.empty()) return "loaded graph: " + e;
     if constexpr (!std::is_same<L, NoLabel>::value)
@@ -220,6 +220,28 @@ void openfail(Reporter &R, uint64_t sub) {
     rmdir(dir.c_str());
 }
 
+// every writer and loader on one given path (used under `strace -e inject=openat:error=...`: the path exists and is
+// perfectly openable, the failure is injected at the system-call boundary)
+void openfailPath(Reporter &R, const std::string &path) {
+    LabeledDirectedGraph<int> gi(3);
+    gi.addEdge(0, 1, 5);
+    LabeledUndirectedGraph<NoLabel> gu(3);
+    gu.addEdge(0, 2);
+    std::function<std::string(const int &)> enc = [](const int &v) { return std::to_string(v); };
+    std::function<int(const std::string &)> dec = [](const std::string &x) { return std::stoi(x); };
+    R.describeCase = [&] { return "{\"mode\": \"open-failure-injected\", \"path\": " + q(path) + "}"; };
+    const std::string tag = "injected-openat-failure";
+    expectRuntimeError(R, "loadBinaryEdgeList(labelled)/" + tag, path, [&] { (void)io::loadBinaryEdgeList<LabeledDirectedGraph, int>(path); });
+    expectRuntimeError(R, "loadBinaryEdgeList(unlabelled)/" + tag, path, [&] { (void)io::loadBinaryEdgeList<LabeledUndirectedGraph, NoLabel>(path); });
+    expectRuntimeError(R, "loadTextEdgeList(labelled)/" + tag, path, [&] { (void)io::loadTextEdgeList<LabeledDirectedGraph, int>(path, dec); });
+    expectRuntimeError(R, "loadTextEdgeList(unlabelled)/" + tag, path, [&] { (void)io::loadTextEdgeList<LabeledUndirectedGraph, NoLabel>(path); });
+    expectRuntimeError(R, "loadTextVertexLabeledEdgeList/" + tag, path, [&] { (void)io::loadTextVertexLabeledEdgeList<LabeledDirectedGraph, NoLabel>(path); });
+    expectRuntimeError(R, "writeBinaryEdgeList(labelled)/" + tag, path, [&] { io::writeBinaryEdgeList(gi, path); });
+    expectRuntimeError(R, "writeBinaryEdgeList(unlabelled)/" + tag, path, [&] { io::writeBinaryEdgeList(gu, path); });
+    expectRuntimeError(R, "writeTextEdgeList(labelled)/" + tag, path, [&] { io::writeTextEdgeList(gi, path, enc); });
+    expectRuntimeError(R, "writeTextEdgeList(unlabelled)/" + tag, path, [&] { io::writeTextEdgeList(gu, path); });
+}
+
 // ---- C15 (a): truncation ----------------------------------------------------
 template <template <class...> class GT, class L> std::string truncOne(const std::string &path, const std::string &full, size_t cut, bool directed, int *outcome) {
     size_t rec = 8 + labelSize<L>();
@@ -249,13 +271,15 @@ template <template <class...> class GT, class L> std::string truncOne(const std:
         else x.e[key] = Expect::Cell();
         labelBytes[key] = full.substr(k * rec + 8, labelSize<L>());
     }
-    x.n = n;
-    if (loaded.getSize() != n) {
+    // the claim is about edges ("exactly the edges of the complete records"); vertices beyond them carry no edge, fewer cannot hold them
+    if (loaded.getSize() < n) {
         o << "returned-graph: " << loaded.getSize() << " vertices; the " << complete << " complete records before the cut (offset " << cut << " of " << full.size() << ") use " << n;
         return o.str();
     }
+    if (loaded.getSize() > (size_t)n + 100000) return "returned-graph: far more vertices than any complete record names";
+    x.n = (unsigned)loaded.getSize();
     ObsCounters oc;
-    std::string e = checkStructure(loaded, x, oc, false, false);
+    std::string e = checkEdgesOnly(loaded, x, oc);
     if (!e.empty()) {
         o << "returned-graph: " << e << "; file cut at offset " << cut << " of " << full.size() << " (record size " << rec << ", " << complete << " complete records)";
         return o.str();
@@ -366,6 +390,10 @@ struct Init {
                                    if (sub == (uint64_t)-1) { flush(R); return; }
                                    if (mode == "openfail") {
                                        if (PART(0)) openfail(R, sub);
+                                       return;
+                                   }
+                                   if (mode == "openfail-path") {
+                                       if (PART(0)) openfailPath(R, R.args.get("path"));
                                        return;
                                    }
                                    unsigned kind = (unsigned)(sub % 11);
